@@ -50,7 +50,8 @@ theorem C19_next_block (c : Cfg) (h : FileH) (s : St) :
       s'.disk = s.disk ∧ Kept h r.2 ∧
       (r.1 ≠ rcOK → r.2.nDataBlock = h.nDataBlock ∧ r.2.curData = h.curData ∧ r.2.curDataPtr = h.curDataPtr ∧ r.2.pos = h.pos) ∧
       (r.1 = rcOK → r.2.nDataBlock = h.nDataBlock + 1 ∧ r.2.pos = h.pos ∧
-          r.2.curData = padTo ((s.sector (vsect c h.vol r.2.curDataPtr)).take 512) 512)) :=
+          r.2.curData = padTo ((s.sector (vsect c h.vol r.2.curDataPtr)).take 512) 512 ∧
+          sectLt2 r.2.curDataPtr = false)) :=
   fileReadNextBlock_spec c h s
 
 /-- short reads only: never more than requested, only appended, disk untouched -/
